@@ -315,7 +315,7 @@ def obligations(tier):
                   bounds={'string_len': [1, NM], 'int': [-1, 1], 'encodings': len(menc)}))
     K = 4 if quick else 5
     obs.append(Ob('history[K<=%d]' % K, ob_history, dict(K=K, encs=['utf-16', 'latin-1'] if quick else
-                                                        ['utf-16', 'latin-1', 'utf-32-be'], N=1 if quick else 2),
+                                                        ['utf-16', 'latin-1', 'utf-32-be'], N=1),
                   must_reach=['DiffXWriter._new_container_section', 'DiffXReader.iter_sections'], path_timeout=30,
                   desc='container histories up to %d containers, each declaring an encoding or not, symbolic probe '
                        'preambles under the inherited encoding' % K,
